@@ -7,16 +7,18 @@ cShapesNoSens == {[nS |-> a, nC |-> b, nK |-> c, sens |-> <<>>] : a \in 1..3, b 
 cShapesAll == cShapes \cup cShapesNoSens
 cShapesC12 == {[nS |-> a, nC |-> b, nK |-> c, sens |-> s] : a \in 1..2, b \in 0..2, c \in 0..1, s \in {<<>>, <<2>>, <<1, 2>>, <<1, 1, 2>>}}
 cActsNone == {}
+cShapesBig == {[nS |-> 3, nC |-> b, nK |-> c, sens |-> s] : b \in 1..2, c \in 0..1, s \in {<<3>>, <<2, 2>>, <<3, 2>>}}
 cSyms == SymPool
 cActsEval == {"ModelEval", "JacEval", "SensEval"}
 cSensors == SensorPool
 cReadings == ReadingPool
-cOpsAll == {"add","sub","mul","div","neg","pow2","pow3","sin","cos","exp","tanh","atan","sqrt1","log1"}
+cOpsAll == {"add","sub","mul","div","neg","pow2","pow3","sin","cos","exp","tanh","atan","sqrt1","log1","tan","asinb","acosb"}
 cOpsRat == {"add","sub","mul","div","neg","pow2"}
 cConsts == <<RI(2), RQ(1,2), RI(-1), RI(3)>>
 cVals == <<RI(1), RI(-2), RI(3), RI(-1), RI(2), RI(-3), RQ(1,2), RQ(-3,2), RQ(5,4)>>
 cValsInt == <<RI(1), RI(-2), RI(3), RI(-1), RI(2), RI(0), RI(-3)>>
 cDts == <<RQ(1,8), RQ(1,4), RQ(1,2), RI(1)>>
+cDts2 == <<RQ(1,4), RQ(1,2)>>
 cCalVals == <<RI(2), RI(-1), RQ(3,2), RI(-3)>>
 cPNoise == <<RI(1), RI(2), RI(3), RQ(1,2)>>
 cSNoise == <<RI(1), RI(3), RI(2), RI(5), RI(4)>>
